@@ -59,6 +59,44 @@ def Exc.toErr : Exc → Err
 
 abbrev Res := Except Exc
 
+/-! ### values, types -/
+
+inductive Val where
+  | atom (a : String)                   -- a scalar, opaque to the model (canonical text)
+  | seq (tag : Nat) (xs : List Val)     -- 0 list, 1 tuple
+  | map (kvs : List (Val × Val))
+  deriving BEq, Repr, Inhabited
+
+def Val.elems : Val → List Val
+  | .seq _ xs => xs
+  | _ => []
+
+def Val.pairs : Val → List (Val × Val)
+  | .map kvs => kvs
+  | _ => []
+
+/-- `result[key] = val` on an insertion-ordered dict -/
+def assocSet [BEq κ] (k : κ) (v : β) : List (κ × β) → List (κ × β)
+  | [] => [(k, v)]
+  | (k', v') :: rest => if k' == k then (k', v) :: rest else (k', v') :: assocSet k v rest
+
+inductive Comb where
+  | all | any | one | neg          -- `&`  `|`  `^`  `~`
+  deriving DecidableEq, Repr
+
+inductive ArgKind where
+  | none
+  | seq (tag : Nat)       -- `_parse_seq_args`, result re-wrapped as `origin(result)` (rule.py:1719-1722)
+  | tuple                 -- `_parse_tuple_args`
+  | map                   -- `_parse_map_args`
+  deriving DecidableEq, Repr
+
+inductive Ty where
+  | leaf (t : Nat)                                                       -- a plain class
+  | rule (origin : Ty) (kind : ArgKind) (args : List Ty) (cons : List Nat) -- a `Rule` subclass
+  | comb (op : Comb) (ts : List Ty)                                      -- a combinator type
+  deriving Repr, Inhabited
+
 structure Mode where
   collect : Bool
   maxErrors : Option Nat
@@ -71,22 +109,43 @@ inductive Policy where
   | throw | exclude | preserve
   deriving DecidableEq, Repr
 
+/-- the `addition` option: None / False / True / a type -/
+inductive Addition where
+  | none | no | yes
+  | typed (T : Ty)
+  deriving Repr
+
+/-- `options.addition is False` -/
+def Addition.isNo : Addition → Bool
+  | .no => true
+  | _ => false
+
+/-- `not options.addition` is false: True or a type -/
+def Addition.truthy : Addition → Bool
+  | .yes => true
+  | .typed _ => true
+  | _ => false
+
 structure Opts where
   ndl : Bool := false                 -- no_data_loss
   nec : Bool := false                 -- no_explicit_cast
-  addition : Option Bool := none      -- None / False / True
+  addition : Addition := .none        -- the context's option (runtime options included)
+  /-- `parser.addition_type`: the type of additional keys *declared* with the class / `**kwargs: T`
+  (base.py:108-112); `parse_addition` ignores a type given only at run time (base.py:421-424).  A constant of
+  the declaration, carried with the options for convenience. -/
+  addTy : Option Ty := none
   invalidItems : Policy := .throw
   invalidKeys : Policy := .throw
   invalidValues : Policy := .throw
   dfs : Bool := false                 -- data_first_search
-  deriving DecidableEq, Repr
+  deriving Repr
 
 structure Ctx where
   mode : Mode
   o : Opts
   errors : List Err := []
   tmp : List Err := []
-  deriving DecidableEq, Repr
+  deriving Repr
 
 /-- a context with empty error lists -/
 def clean0 (m : Mode) (o : Opts) : Ctx := { mode := m, o := o }
@@ -100,8 +159,8 @@ def Opts.merge (o : Opts) : Override → Opts
   | .none => o
   -- `Options(no_data_loss=True, …)` carries `addition=False` (options.py:151-155 since fix 64ecb5e); merged over
   -- the inherited options (`__and__`) it replaces their `addition`
-  | .strict => { o with ndl := true, nec := true, addition := some false }
-  | .noLoss => { o with ndl := true, addition := some false }
+  | .strict => { o with ndl := true, nec := true, addition := .no }
+  | .noLoss => { o with ndl := true, addition := .no }
 
 /-- `context.enter(route, options)` (options.py:389-405): same options (merged), fresh error lists -/
 def Ctx.enter (c : Ctx) (ov : Override := .none) : Ctx := clean0 c.mode (c.o.merge ov)
@@ -161,43 +220,7 @@ def runLoop (step : α → ι → Step α) : Ctx → List ι → α → Ctx × R
       | (c', some x') => (c', .error x')
       | (c', none) => (c', .error x)
 
-/-! ### values, types, world -/
-
-inductive Val where
-  | atom (a : String)                   -- a scalar, opaque to the model (canonical text)
-  | seq (tag : Nat) (xs : List Val)     -- 0 list, 1 tuple
-  | map (kvs : List (Val × Val))
-  deriving BEq, Repr, Inhabited
-
-def Val.elems : Val → List Val
-  | .seq _ xs => xs
-  | _ => []
-
-def Val.pairs : Val → List (Val × Val)
-  | .map kvs => kvs
-  | _ => []
-
-/-- `result[key] = val` on an insertion-ordered dict -/
-def assocSet [BEq κ] (k : κ) (v : β) : List (κ × β) → List (κ × β)
-  | [] => [(k, v)]
-  | (k', v') :: rest => if k' == k then (k', v) :: rest else (k', v') :: assocSet k v rest
-
-inductive Comb where
-  | all | any | one | neg          -- `&`  `|`  `^`  `~`
-  deriving DecidableEq, Repr
-
-inductive ArgKind where
-  | none
-  | seq (tag : Nat)       -- `_parse_seq_args`, result re-wrapped as `origin(result)` (rule.py:1719-1722)
-  | tuple                 -- `_parse_tuple_args`
-  | map                   -- `_parse_map_args`
-  deriving DecidableEq, Repr
-
-inductive Ty where
-  | leaf (t : Nat)                                                       -- a plain class
-  | rule (origin : Ty) (kind : ArgKind) (args : List Ty) (cons : List Nat) -- a `Rule` subclass
-  | comb (op : Comb) (ts : List Ty)                                      -- a combinator type
-  deriving Repr, Inhabited
+/-! ### world -/
 
 structure World where
   /-- `transformer(value, cls)` for a plain class under (no_data_loss, no_explicit_cast); none = raises -/
@@ -244,16 +267,30 @@ def tupleStep (rec : P) (m : Mode) (o : Opts) (xs : List Val) (acc : List Val) (
       if o.invalidItems == .preserve then .keep (acc ++ [x])
       else .report { kind := .parse, item := some (toString it.2) } acc
 
+/-- one iteration of the typed-addition loop of `_parse_tuple_args` (rule.py:1934-1951): the items beyond the
+declared prefix are converted to `options.addition` when that is a type -/
+def tupleAddStep (rec : P) (T : Ty) (m : Mode) (o : Opts) (acc : List Val) (it : Val × Nat) : Step (List Val) :=
+  match verdict rec T m o it.1 with
+  | some r => .keep (acc ++ [r])
+  | none =>
+    if o.invalidItems == .preserve then .keep (acc ++ [it.1])
+    else .report { kind := .parse, item := some (toString it.2) } acc
+
 def parseTuple (rec : P) (ts : List Ty) (c : Ctx) (v : Val) : Ctx × Res Val :=
   let xs := v.elems
   -- :1895-1899
-  let excess := if xs.length > ts.length && (c.o.addition == some false || c.o.ndl)
+  let excess := if xs.length > ts.length && (c.o.addition.isNo || c.o.ndl)
                 then List.range' ts.length (xs.length - ts.length) else []
   andThen (runLoop (fun (_ : Unit) (i : Nat) => Step.report { kind := .tupleExceed, item := some (toString i) } ()) c excess ())
     fun c1 _ =>
   andThen (runLoop (tupleStep rec c.mode c.o xs) c1 ts.zipIdx []) fun c2 acc =>
-    -- :1924-1944 `if options.addition:` — True keeps the rest (a type is outside the fragment)
-    (c2, .ok (.seq 1 (if c.o.addition == some true then acc ++ xs.drop ts.length else acc)))
+    -- :1924-1944 `if options.addition:` — a type converts the rest, True keeps it as it is
+    match c.o.addition with
+    | .typed T =>
+      andThen (runLoop (tupleAddStep rec T c.mode c.o) c2 ((xs.drop ts.length).zipIdx ts.length) acc) fun c3 acc3 =>
+        (c3, .ok (.seq 1 acc3))
+    | .yes => (c2, .ok (.seq 1 (acc ++ xs.drop ts.length)))
+    | _ => (c2, .ok (.seq 1 acc))
 
 /-- one iteration of `_parse_map_args` (rule.py:1992-2033) -/
 def mapStep (rec : P) (K : Ty) (V : Option Ty) (m : Mode) (o : Opts)
@@ -464,72 +501,148 @@ def store (name : String) (res : Data) : Step (Option Val) → Step Data
 
 def hasKey (k : String) (d : Data) : Bool := d.any (fun p => p.1 == k)
 
-/-- `parse_addition` (base.py:389-423) for an untyped addition: (result, addition) accumulators -/
-def additionStep (o : Opts) (acc : Data × Data) (kv : String × Val) : Step (Data × Data) :=
+/-- `parse_addition` (base.py:390-440): (result, addition) accumulators.  A typed additional key is converted
+in its own sub-context (`context.enter(key)`); what that conversion raises becomes one `ParseError(item=key)`
+or is dropped / kept raw by the `invalid_values` policy; after a handled error the raw value is still returned. -/
+def additionStep (rec : P) (m : Mode) (o : Opts) (acc : Data × Data) (kv : String × Val) : Step (Data × Data) :=
   match o.addition with
-  | some false => .report { kind := .exceed, item := some kv.1 } acc      -- :394-396
-  | none => .keep acc                                                      -- :397-399
-  | some true => .keep (acc.1, assocSet kv.1 kv.2 acc.2)                   -- :403-404
+  | .no => .report { kind := .exceed, item := some kv.1 } acc              -- :394-396
+  | .none => .keep acc                                                      -- :397-399
+  | _ =>
+    match o.addTy with
+    | none => .keep (acc.1, assocSet kv.1 kv.2 acc.2)                       -- :403-404 no declared type
+    | some T =>
+      match verdict rec T m o kv.2 with                                     -- :407-409
+      | some r => .keep (acc.1, assocSet kv.1 r acc.2)
+      | none =>
+        match o.invalidValues with
+        | .exclude => .keep acc                                             -- :414-416
+        | .preserve => .keep (acc.1, assocSet kv.1 kv.2 acc.2)              -- :417-418
+        | .throw => .report { kind := .parse, item := some kv.1 } (acc.1, assocSet kv.1 kv.2 acc.2)  -- :419-421
 
 /-- `data_first_parse` after C06's repair (base.py:447-546 at /repo ad95ff6).  The scan (:462-481) records what
 was given in input order; in the fragment (one key per field, distinct dict keys) it is the input itself and
 there are no alias conflicts.  This is one iteration of the loop over `inputs` (:483-513): an additional key goes
-to `parse_addition`, a field's value to `parse_value`. -/
-def dfStep1 (rec : P) (m : Mode) (o : Opts) (decl : List FieldDecl) (acc : Data × Data) (kv : String × Val) :
-    Step (Data × Data) :=
-  match decl.find? (fun f => f.name == kv.1) with
-  | none => additionStep o acc kv
-  | some f =>
-    match store f.name acc.1 (fieldValue rec m o f kv.2) with
-    | .keep r => .keep (r, acc.2)
-    | .report e r => .report e (r, acc.2)
-    | .abort e x => .abort e x
+to `parse_addition`, a field's value to `parse_value` — unless the field was already taken from a positional
+argument (`excluded_keys`, :503-504).
 
-/-- loop over the declared fields (base.py:515-527): a field that was *given* (`name in inputs`) is skipped —
-also when its value was rejected — an absent required one is reported, an absent optional one gets its default -/
-def dfStep2 (data : Data) (acc : Data) (f : FieldDecl) : Step Data :=
-  if hasKey f.name data then .keep acc
+`parse_value(excluded_as_absent=True)` (fix 107a5ff) returns `EXCLUDED` for a value dropped by the `exclude`
+policy of a non-required field; both callers then apply the field's default (field-first at once, data-first in
+the loop over the fields, where such a field is not required) — which is what `.keep f.default` of `fieldValue`
+stored under the name amounts to. -/
+def dfStep1 (rec : P) (m : Mode) (o : Opts) (decl : List FieldDecl) (excluded : List String)
+    (acc : Data × Data) (kv : String × Val) : Step (Data × Data) :=
+  match decl.find? (fun f => f.name == kv.1) with
+  | none => additionStep rec m o acc kv
+  | some f =>
+    if excluded.contains f.name then .keep acc
+    else
+      match store f.name acc.1 (fieldValue rec m o f kv.2) with
+      | .keep r => .keep (r, acc.2)
+      | .report e r => .report e (r, acc.2)
+      | .abort e x => .abort e x
+
+/-- loop over the declared fields (base.py:521-533): a field that was *given* (`name in inputs`) is skipped —
+also when its value was rejected — as is one taken from a positional argument; an absent required one is
+reported, an absent optional one gets its default -/
+def dfStep2 (data : Data) (excluded : List String) (acc : Data) (f : FieldDecl) : Step Data :=
+  if hasKey f.name data || excluded.contains f.name then .keep acc
   else if f.required then .report { kind := .absence, item := some f.name } acc
   else match f.default with
     | some d => .keep (assocSet f.name d acc)
     | none => .keep acc
 
-def dataFirst (rec : P) (decl : List FieldDecl) (c : Ctx) (data : Data) : Ctx × Res Data :=
-  andThen (runLoop (dfStep1 rec c.mode c.o decl) c data ([], [])) fun c1 acc =>
-  andThen (runLoop (dfStep2 data) c1 decl acc.1) fun c2 res2 =>
-  (c2, .ok (res2 ++ acc.2))                                     -- :544-545 result.update(addition)
+def dataFirst (rec : P) (decl : List FieldDecl) (excluded : List String) (c : Ctx) (data : Data) : Ctx × Res Data :=
+  andThen (runLoop (dfStep1 rec c.mode c.o decl excluded) c data ([], [])) fun c1 acc =>
+  andThen (runLoop (dfStep2 data excluded) c1 decl acc.1) fun c2 res2 =>
+  (c2, .ok (res2 ++ acc.2))                                     -- result.update(addition)
 
-/-- field loop of `field_first_parse` (base.py:538-590) -/
-def ffStep1 (rec : P) (m : Mode) (o : Opts) (data : Data) (acc : Data) (f : FieldDecl) : Step Data :=
-  match data.lookup f.name with
-  | none =>
-    if f.required then .report { kind := .absence, item := some f.name } acc     -- :558-561
-    else match f.default with
-      | some d => .keep (assocSet f.name d acc)
-      | none => .keep acc
-  | some v => store f.name acc (fieldValue rec m o f v)
+/-- field loop of `field_first_parse` (base.py:581-665) -/
+def ffStep1 (rec : P) (m : Mode) (o : Opts) (data : Data) (excluded : List String) (acc : Data) (f : FieldDecl) :
+    Step Data :=
+  if excluded.contains f.name then .keep acc                    -- :586-587
+  else
+    match data.lookup f.name with
+    | none =>
+      if f.required then .report { kind := .absence, item := some f.name } acc
+      else match f.default with
+        | some d => .keep (assocSet f.name d acc)
+        | none => .keep acc
+    | some v => store f.name acc (fieldValue rec m o f v)
 
-/-- addition loop of `field_first_parse` (base.py:605-617) -/
-def ffStep2 (o : Opts) (decl : List FieldDecl) (acc : Data × Data) (kv : String × Val) : Step (Data × Data) :=
-  if decl.any (fun f => f.name == kv.1) then .keep acc        -- `k in used_alias`
-  else additionStep o acc kv
+/-- addition loop of `field_first_parse` (base.py:682-694): a key is skipped when it named a field that took
+it (`used_alias` is only filled by fields that were looked up, so not by excluded ones) -/
+def ffStep2 (rec : P) (m : Mode) (o : Opts) (decl : List FieldDecl) (excluded : List String)
+    (acc : Data × Data) (kv : String × Val) : Step (Data × Data) :=
+  if decl.any (fun f => f.name == kv.1 && !excluded.contains f.name) then .keep acc
+  else additionStep rec m o acc kv
 
-def fieldFirst (rec : P) (decl : List FieldDecl) (c : Ctx) (data : Data) : Ctx × Res Data :=
-  andThen (runLoop (ffStep1 rec c.mode c.o data) c decl []) fun c1 res =>
-  if c.o.addition.isSome then                                  -- :605 `if options.addition is not None`
-    andThen (runLoop (ffStep2 c.o decl) c1 data (res, [])) fun c2 acc => (c2, .ok (acc.1 ++ acc.2))
-  else (c1, .ok res)
+def fieldFirst (rec : P) (decl : List FieldDecl) (excluded : List String) (c : Ctx) (data : Data) : Ctx × Res Data :=
+  andThen (runLoop (ffStep1 rec c.mode c.o data excluded) c decl []) fun c1 res =>
+  match c.o.addition with                                      -- `if options.addition is not None`
+  | .none => (c1, .ok res)
+  | _ => andThen (runLoop (ffStep2 rec c.mode c.o decl excluded) c1 data (res, [])) fun c2 acc => (c2, .ok (acc.1 ++ acc.2))
 
-/-- `parse_data` (base.py:352-387; max_params/min_params not in the fragment) -/
-def parseData (rec : P) (decl : List FieldDecl) (c : Ctx) (data : Data) : Ctx × Res Data :=
-  if c.o.dfs then dataFirst rec decl c data else fieldFirst rec decl c data
+/-- `parse_data` (base.py:353-388; max_params/min_params not in the fragment) -/
+def parseData (rec : P) (decl : List FieldDecl) (excluded : List String) (c : Ctx) (data : Data) : Ctx × Res Data :=
+  if c.o.dfs then dataFirst rec decl excluded c data else fieldFirst rec decl excluded c data
 
 /-- `BaseParser.__call__` (base.py:342-350): a fresh context, `parse_data`, `context.raise_error()` -/
 def run (W : World) (fuel : Nat) (decl : List FieldDecl) (m : Mode) (o : Opts) (data : Data) : Res Data :=
-  (andThen (parseData (parse W fuel) decl (clean0 m o) data) finish).2
+  (andThen (parseData (parse W fuel) decl [] (clean0 m o) data) finish).2
 
 def runLegacy (W : World) (fuel : Nat) (decl : List FieldDecl) (m : Mode) (o : Opts) (data : Data) : Res Data :=
-  (andThen (parseData (parseLegacy W fuel) decl (clean0 m o) data) finish).2
+  (andThen (parseData (parseLegacy W fuel) decl [] (clean0 m o) data) finish).2
+
+/-! ### function calls with positional arguments (func.py:580-680)
+
+Fragment: positional-or-keyword parameters (no `/`, no excluded `_x` names), then optionally `*args: T`, then
+keyword-only parameters and optionally `**kwargs`.  `npos` positional parameters are the first `npos` fields. -/
+
+structure Sig where
+  decl : List FieldDecl        -- all parameters that are fields, positional ones first
+  npos : Nat                   -- how many of them can be given by position
+  hasVar : Bool                -- `*args` declared
+  posTy : Option Ty            -- its annotation
+  deriving Repr
+
+/-- one iteration of the loop over the positional arguments (func.py:623-651); accumulators: the parsed
+positional arguments and `parsed_keys` -/
+def posStep (rec : P) (m : Mode) (o : Opts) (sg : Sig) (acc : List Val × List String) (it : Val × Nat) :
+    Step (List Val × List String) :=
+  if sg.hasVar && it.2 ≥ sg.npos then
+    -- `parse_pos_type` (:580-602): its own sub-context; a handled error still returns the raw value
+    match sg.posTy with
+    | none => .keep (acc.1 ++ [it.1], acc.2)
+    | some T =>
+      match verdict rec T m o it.1 with
+      | some r => .keep (acc.1 ++ [r], acc.2)
+      | none =>
+        match o.invalidItems with
+        | .preserve => .keep (acc.1 ++ [it.1], acc.2)
+        | .exclude => .keep acc
+        | .throw => .report { kind := .parse, item := some ("*args:" ++ toString it.2) } (acc.1 ++ [it.1], acc.2)
+  else
+    match (sg.decl.take sg.npos)[it.2]? with
+    | none => .keep acc                                        -- :647-649 an excess argument is ignored
+    | some f =>
+      -- :636-640 parsed_keys.append(attname); parse_value; an unprovided outcome is not appended
+      match fieldValue rec m o f it.1 with
+      | .keep none => .keep (acc.1, acc.2 ++ [f.name])
+      | .keep (some r) => .keep (acc.1 ++ [r], acc.2 ++ [f.name])
+      | .report e none => .report e (acc.1, acc.2 ++ [f.name])
+      | .report e (some r) => .report e (acc.1 ++ [r], acc.2 ++ [f.name])
+      | .abort e x => .abort e x
+
+/-- `FunctionParser.parse_params` (func.py:611-680) on a fresh context -/
+def parseCall (rec : P) (sg : Sig) (c : Ctx) (args : List Val) (kwargs : Data) : Ctx × Res (List Val × Data) :=
+  andThen (runLoop (posStep rec c.mode c.o sg) c args.zipIdx ([], [])) fun c1 acc =>
+  andThen (parseData rec sg.decl acc.2 c1 kwargs) fun c2 kw =>
+  finish c2 (acc.1, kw)                                        -- :679
+
+def runCall (W : World) (fuel : Nat) (sg : Sig) (m : Mode) (o : Opts) (args : List Val) (kwargs : Data) :
+    Res (List Val × Data) :=
+  (parseCall (parse W fuel) sg (clean0 m o) args kwargs).2
 
 /-! ### Specification vocabulary (independent of the loops above)
 
@@ -549,6 +662,38 @@ def isItem (decl : List FieldDecl) (data : Data) (i : String) : Bool :=
 
 def failsAlone (W : World) (fuel : Nat) (decl : List FieldDecl) (o : Opts) (data : Data) (i : String) : Bool :=
   isItem decl data i && isError (run W fuel (declOf decl i) .ff o (dataOf data i))
+
+/-- `parse_data` as `parse_params` calls it: the names in `ex` were already taken from positional arguments -/
+def runX (W : World) (fuel : Nat) (decl : List FieldDecl) (ex : List String) (m : Mode) (o : Opts) (data : Data) :
+    Res Data :=
+  (andThen (parseData (parse W fuel) decl ex (clean0 m o) data) finish).2
+
+def failsAloneX (W : World) (fuel : Nat) (decl : List FieldDecl) (ex : List String) (o : Opts) (data : Data)
+    (i : String) : Bool :=
+  isItem decl data i && isError (runX W fuel (declOf decl i) ex .ff o (dataOf data i))
+
+/-- the parameters a call gives by position -/
+def givenPos (sg : Sig) (args : List Val) : List String :=
+  ((sg.decl.take sg.npos).take args.length).map (·.name)
+
+/-- one element of `*args` as a field of its own: its type, dropped / kept / reported by `invalid_items` -/
+def varField (sg : Sig) (o : Opts) : FieldDecl :=
+  { name := "*args", ty := sg.posTy, required := false, default := none, onError := some o.invalidItems }
+
+/-- the item a positional argument stands for when it fails on its own: the parameter it is bound to, parsed
+alone by keyword, or `*args:j`, parsed alone against the `*args` type -/
+def posFailing (W : World) (fuel : Nat) (sg : Sig) (o : Opts) (it : Val × Nat) : Option String :=
+  if sg.hasVar && it.2 ≥ sg.npos then
+    if isError (run W fuel [varField sg o] .ff o [("*args", it.1)]) then some ("*args:" ++ toString it.2) else none
+  else
+    match (sg.decl.take sg.npos)[it.2]? with
+    | none => none
+    | some f => if isError (run W fuel [f] .ff o [(f.name, it.1)]) then some f.name else none
+
+/-- "item `i` of the call fails on its own" -/
+def callFails (W : World) (fuel : Nat) (sg : Sig) (o : Opts) (args : List Val) (kwargs : Data) (i : String) : Bool :=
+  args.zipIdx.any (fun it => posFailing W fuel sg o it == some i) ||
+  failsAloneX W fuel sg.decl (givenPos sg args) o kwargs i
 
 /-- the items a raised exception names -/
 def Exc.items : Exc → List (Option String)
